@@ -42,7 +42,7 @@ BaseStep ==
     /\ LET e == E IN
        /\ prev' = IF e.ev = "Begin" THEN <<>> ELSE IF e.o THEN e.obs.files ELSE prev
        /\ wts' = IF e.ev = "Begin" THEN <<>>
-                 ELSE IF e.ev = "Log" /\ Ok(e) /\ e.id > 0 THEN Append(wts, e.t) ELSE wts
+                 ELSE IF e.ev = "Log" /\ e.ret # "noop" THEN Append(wts, e.t) ELSE wts    \* index = id = position
        /\ base' = IF e.ev = "Begin" THEN 0
                   ELSE IF e.ev = "Log" /\ Ok(e) /\ sinceStart = 0 /\ ~c.rot /\ ~c.append THEN Len(acc)
                   ELSE base
